@@ -184,8 +184,10 @@ Definition ex_hist : list event :=
     EvDelUserSig "n9/none";
     EvUserSig "n2/a" (sg "aa" 90 "t1" (TAt 70));            (* tag change: now the oldest of t1 *)
     EvDosPolicy "n1/dp" {| dp_valid := true |};
-    EvDosPR {| pr_ns := "n1"; pr_name := "r1"; pr_valid := true; pr_pol := "dp"; pr_log := Some "n2/lg" |};
-    EvDosPR {| pr_ns := "n1"; pr_name := "r2"; pr_valid := true; pr_pol := "n1/dp"; pr_log := None |};
+    EvDosPR {| pr_ns := "n1"; pr_name := "r1"; pr_valid := true; pr_pol := "dp"; pr_log := Some "n2/lg";
+               pr_enable := true; pr_log_enable := false |};
+    EvDosPR {| pr_ns := "n1"; pr_name := "r2"; pr_valid := true; pr_pol := "n1/dp"; pr_log := None;
+               pr_enable := false; pr_log_enable := false |};
     EvPolicy "n1/a" {| po_valid := true;
                        po_reqs := Some [ {| rq_tag := Some "t1"; rq_min := TAt 60; rq_max := TAbsent |} ] |} ].
 
